@@ -21,6 +21,11 @@ from nanoemoji import fixed
 from picosvg.svg_transform import Affine2D
 from picosvg.geometric_types import Point
 
+
+# OpenType field ranges, stated here (not read from nanoemoji.fixed) so that a change to the code's constants cannot move the oracle
+OT_MIN_INT16, OT_MAX_INT16, OT_MIN_UINT16, OT_MAX_UINT16 = -32768, 32767, 0, 65535
+OT_MIN_F2DOT14, OT_MAX_F2DOT14 = Fraction(-2), Fraction(2**15 - 1, 2**14)
+
 _real_decompose_scale = Affine2D.decompose_scale
 _real_decompose_translation = Affine2D.decompose_translation
 
@@ -320,8 +325,8 @@ def job_radial_overflow(jc):
     with shims.installed(shims.std_shims()):
         results = jc.explore(body, catch=(OverflowError,))
     inp = {n: core.SymNum(z3.Real(n)) for n in names}
-    fits = z3.And(*[z3.And(inp[n].t >= fixed.MIN_INT16, inp[n].t <= fixed.MAX_INT16) for n in names[:4]],
-                  *[z3.And(inp[n].t >= fixed.MIN_UINT16, inp[n].t <= fixed.MAX_UINT16) for n in names[4:]])
+    fits = z3.And(*[z3.And(inp[n].t >= OT_MIN_INT16, inp[n].t <= OT_MAX_INT16) for n in names[:4]],
+                  *[z3.And(inp[n].t >= OT_MIN_UINT16, inp[n].t <= OT_MAX_UINT16) for n in names[4:]])
     for r in results:
         if r.exc is not None:
             jc.reach(r, "OverflowError")
